@@ -18,6 +18,8 @@ CLAIMS = {
             "the 2^32 bound is the spec's serialization bound; the crate does not enforce it and the theorem does not claim it"),
     "C05": ("Theorem C05_decode_no_panic for every type expression and every byte string, plus the helpers, the list decoder with any limit/collection and the builder with any registration sequence: every Rust panic site is an explicit Panic branch of the model and is proved unreachable. Tie: outcome class of every decode/helper/builder call under catch_unwind; a dying harness process is attributed to its last case.",
             "partial: stack depth and allocation failure are runtime behaviour outside the model (self-referential derive inputs are not terms of the type algebra); panics inside std or third-party code the model does not mention would only be seen by the differential run"),
+    "C06": ("Theorem C06_linear: the allocation account units t bs (everything the decoder may reserve, collect or copy, at every nesting level, on success and error paths) is at most ufactor t x length, for every type and byte string; C06_reserved_before_decoding (reservation and work <= len/4 whatever the first offset announces). Tie: the real allocator's peak live bytes and largest request around every decode call, under a counting global allocator, must stay below growth x element size x (account + 1) + constant, and below the same with the proved linear bound.",
+            "partial by nature: the theorem is about the account; the allocator's real behaviour (Vec growth, BTree nodes, error strings) is measured, not proved; a decode that takes the process down is attributed to the announced case"),
     "C07": ("Theorems C07_*: predicted size = produced length, encode/decode side agreement, 4 for variable types, fixed types encode to and accept only their fixed length. Tie + oracle on the crate's four static functions, ssz_bytes_len and decode of other lengths.",
             "as C01"),
     "C09": ("Theorems C09_word_* (exact little-endian bijection on [0,2^32)), C09_builder_tiles (builder succeeds iff the input is tiled; slices in registration order), C09_list_tiles, C09_offsets_spelled_out. Tie: builder histories, word codec, read_offset, list decoder; oracle: an independent native-integer tiling reference.",
@@ -63,7 +65,6 @@ for p in props:
             level_note="trusted: Coq 8.16.1 kernel (Print Assumptions: closed under the global context), extraction with ExtrOcamlBasic only, OCaml driver, Rust harness, type generator; " + note,
             technique=TECH))
 NA = {
-    "C06": "check under construction (allocation model Alloc.v and counting-allocator observations): not yet claimed; not a statement that the technique cannot apply",
     "C08": "check under construction (Derive.v over derive-input ASTs and compile-fail crates): the generated derive programs are already exercised by C01-C07/C17, but the property is not yet claimed",
 }
 m = dict(
